@@ -6,6 +6,7 @@ package verifsim
 // loop cost microseconds; a task stuck in that loop for 10 simulated minutes is a hang).
 
 import (
+	"context"
 	"database/sql"
 	"encoding/json"
 	"fmt"
@@ -16,7 +17,7 @@ import (
 )
 
 type HOp struct {
-	Kind string   `json:"kind"` // open | close | query | maxopen | maxidle | idletime | sleep | hide | unhide (move the file away / back)
+	Kind string   `json:"kind"` // open | close | query | maxopen | maxidle | idletime | sleep | hide | unhide (move the file away / back) | replace (rebuild the file from the alternative dataset, same row count) | queryctx (query with cancellable context N) | cancel (cancel context N)
 	H    int      `json:"h"`
 	File int      `json:"file,omitempty"`
 	Opts string   `json:"opts,omitempty"`
@@ -30,6 +31,7 @@ type HPhase struct {
 
 type C17Case struct {
 	Datas  []Dataset `json:"datas"`
+	Alts   []Dataset `json:"alts,omitempty"` // alternative content per file for the replace op (same row count and columns, other rows)
 	Phases []HPhase  `json:"phases"`
 	Sched  SchedCfg  `json:"sched"`
 }
@@ -57,6 +59,13 @@ func genC17(c *Ctx) any {
 		}
 		cs.Datas = append(cs.Datas, Dataset{Spec: sp})
 		sis = append(sis, infoOf(sp.Expand()))
+		alt := *sp
+		alt.Seed = r.U64() | 1
+		alt.Cols = append([]ColSpec(nil), sp.Cols...)
+		for k := range alt.Cols {
+			alt.Cols[k].Card += 3 // other (more) values, same number of rows
+		}
+		cs.Alts = append(cs.Alts, Dataset{Spec: &alt})
 	}
 	maxTasks := 6
 	if c.Thorough() {
@@ -126,7 +135,38 @@ func genC17(c *Ctx) any {
 		var ops []HOp
 		for i, n := 0, r.Range(1, 6); i < n; i++ {
 			oh = openHandles()
-			switch k := r.Intn(13); {
+			switch k := r.Intn(15); {
+			case k == 13:
+				// the index file is rebuilt (other rows, same row count) while nobody has it open
+				f := r.Intn(nf)
+				busy := false
+				for _, h := range hs {
+					if h.open && h.file == f {
+						busy = true
+					}
+				}
+				if busy {
+					continue
+				}
+				ops = append(ops, HOp{Kind: "replace", File: f})
+			case k == 14:
+				// a query whose context is cancelled while the driver is working on it (the cancel
+				// fires after a seeded number of statements of the code under test), then the
+				// handle is used again and often closed
+				if len(oh) == 0 {
+					continue
+				}
+				h := oh[r.Intn(len(oh))]
+				q := query(h)
+				q.Q.Via = ""
+				ops = append(ops, HOp{Kind: "queryctx", H: h, Q: q.Q, N: r.Range(1, 160)})
+				if r.Chance(1, 2) {
+					ops = append(ops, query(h))
+				}
+				if r.Chance(2, 3) {
+					ops = append(ops, HOp{Kind: "close", H: h})
+					hs[h].open = false
+				}
 			case k == 12:
 				// a file that is missing at first use: the open fails, later the file is there
 				f := r.Intn(nf)
@@ -174,7 +214,9 @@ func genC17(c *Ctx) any {
 				ops = append(ops, HOp{Kind: "maxopen", H: oh[r.Intn(len(oh))], N: r.Range(1, 4)})
 			}
 		}
-		cs.Phases = append(cs.Phases, HPhase{Tasks: [][]HOp{ops}})
+		if len(ops) > 0 {
+			cs.Phases = append(cs.Phases, HPhase{Tasks: [][]HOp{ops}})
+		}
 	}
 	return cs
 }
@@ -201,14 +243,32 @@ func runC17(c *Ctx, body json.RawMessage) *Verdict {
 	used := map[int]bool{}
 	hidden := map[int]bool{}
 	mustFail := map[[3]int]bool{} // (phase, task, op) of queries issued while the file is missing
+	altAt := map[[3]int]bool{}    // queries issued while the file holds the alternative content
+	isAlt := map[int]bool{}
 	for pi, ph := range cs.Phases {
 		if len(ph.Tasks) == 0 {
 			return Invalid("empty phase")
 		}
 		for ti, ops := range ph.Tasks {
 			for oi, op := range ops {
-				if op.Kind == "sleep" {
+				if op.Kind == "sleep" || op.Kind == "cancel" {
 					continue
+				}
+				if op.Kind == "replace" {
+					if len(ph.Tasks) > 1 || op.File < 0 || op.File >= len(cs.Datas) || op.File >= len(cs.Alts) || hidden[op.File] {
+						return Invalid("bad replace")
+					}
+					for _, o := range handles {
+						if o.open && o.file == op.File {
+							return Invalid("replace while a handle is open")
+						}
+					}
+					isAlt[op.File] = !isAlt[op.File]
+					v.Count("fault_file_replaced_between_close_and_reopen", 1)
+					continue
+				}
+				if (op.Kind == "query" || op.Kind == "queryctx") && handles[op.H] != nil && isAlt[handles[op.H].file] {
+					altAt[[3]int{pi, ti, oi}] = true
 				}
 				if op.Kind == "hide" || op.Kind == "unhide" {
 					if len(ph.Tasks) > 1 || op.File < 0 || op.File >= len(cs.Datas) || hidden[op.File] == (op.Kind == "hide") {
@@ -225,7 +285,7 @@ func runC17(c *Ctx, body json.RawMessage) *Verdict {
 					}
 					continue
 				}
-				if op.Kind == "query" && handles[op.H] != nil && hidden[handles[op.H].file] {
+				if (op.Kind == "query" || op.Kind == "queryctx") && handles[op.H] != nil && hidden[handles[op.H].file] {
 					mustFail[[3]int{pi, ti, oi}] = true
 				}
 				if op.Kind == "open" {
@@ -247,7 +307,17 @@ func runC17(c *Ctx, body json.RawMessage) *Verdict {
 				}
 				if op.Kind == "close" {
 					if len(ph.Tasks) > 1 {
-						return Invalid("close in a concurrent phase")
+						// allowed only when no other task of the phase touches this handle
+						for tj, other := range ph.Tasks {
+							if tj == ti {
+								continue
+							}
+							for _, oo := range other {
+								if oo.Kind != "cancel" && oo.Kind != "sleep" && oo.H == op.H {
+									return Invalid("close while another task of the phase uses the handle")
+								}
+							}
+						}
 					}
 					h.open = false
 					left := 0
@@ -260,7 +330,7 @@ func runC17(c *Ctx, body json.RawMessage) *Verdict {
 						everClosedAll[h.file] = true
 					}
 				}
-				if op.Kind == "query" {
+				if op.Kind == "query" || op.Kind == "queryctx" {
 					if len(ph.Tasks) > 1 && !used[op.H] {
 						concFirstUse = true
 					}
@@ -269,7 +339,7 @@ func runC17(c *Ctx, body json.RawMessage) *Verdict {
 		}
 		for _, ops := range ph.Tasks {
 			for _, op := range ops {
-				if op.Kind == "query" {
+				if op.Kind == "query" || op.Kind == "queryctx" {
 					used[op.H] = true
 				}
 			}
@@ -289,8 +359,17 @@ func runC17(c *Ctx, body json.RawMessage) *Verdict {
 		v.Count("probe_concurrent_first_use", 1)
 	}
 
-	var refs []*RefIndex
+	var refs, altRefs []*RefIndex
+	var altRows [][]Row
 	var paths []string
+	for i := range cs.Datas {
+		if i < len(cs.Alts) {
+			ar := cs.Alts[i].Expand()
+			altRows = append(altRows, ar)
+			altRefs = append(altRefs, NewRefIndex(ar))
+		}
+	}
+	replaced := make([]bool, len(cs.Datas))
 	for i, d := range cs.Datas {
 		rows := d.Expand()
 		refs = append(refs, NewRefIndex(rows))
@@ -351,6 +430,39 @@ func runC17(c *Ctx, body json.RawMessage) *Verdict {
 								isOpen[op.H] = false
 							case "query":
 								o.o = runDB(dbs[op.H], op.Q)
+							case "queryctx":
+								o.o = &sqlOut{}
+								ctx, cancel := context.WithCancel(context.Background())
+								if p := guard(func() {
+									simrt.ArmHook(int64(op.N), cancel)
+									rows, err := dbs[op.H].QueryContext(ctx, string(op.Q.Text), anyArgs(op.Q.Args)...)
+									simrt.DisarmHook() // the cancel only ever fires inside the driver call
+									if ctx.Err() != nil {
+										// database/sql's watcher goroutine is closing the rows right now; it takes
+										// Rows.closemu, a real mutex: let it finish before touching the rows
+										time.Sleep(time.Millisecond)
+									}
+									o.o = readRows(rows, err)
+								}); p != "" {
+									o.o = &sqlOut{Panic: p}
+								}
+								cancel()
+							case "replace":
+								rows := altRows[op.File]
+								if replaced[op.File] {
+									rows = cs.Datas[op.File].Expand()
+								}
+								tmp := paths[op.File] + ".new"
+								os.Remove(tmp)
+								if _, err := BuildIndex("mem-file", tmp, rows); err != nil {
+									o.o = &sqlOut{Err: "harness: " + err.Error()}
+									return
+								}
+								if err := os.Rename(tmp, paths[op.File]); err != nil {
+									o.o = &sqlOut{Err: "harness: " + err.Error()}
+									return
+								}
+								replaced[op.File] = !replaced[op.File]
 							case "maxopen":
 								dbs[op.H].SetMaxOpenConns(op.N)
 							case "maxidle":
@@ -387,6 +499,8 @@ func runC17(c *Ctx, body json.RawMessage) *Verdict {
 			v.Count("context_switches", int64(res.Switches))
 			v.Count("yields", res.Yields)
 			v.Count("arrivals", int64(res.Arrivals))
+			v.Count("adopted_goroutines", int64(res.Spawned))
+			v.Count("fault_context_cancelled_inside_driver_call", int64(res.HooksFired))
 			v.SimNs += int64(res.SimTime)
 			v.IL = simrt.Hash3(v.IL, res.ILHash, uint64(pi)) | 1
 			if res.Hang || res.Deadlock {
@@ -411,15 +525,25 @@ func runC17(c *Ctx, body json.RawMessage) *Verdict {
 							bad = v.Violate("unexpected-error", "phase %d: %s of handle %d failed: %s", pi, op.Kind, op.H, o.o.Err)
 							return
 						}
-					case "hide", "unhide":
+					case "hide", "unhide", "replace":
 						if o.o != nil && o.o.Err != "" {
 							bad = v.Harness("%s", o.o.Err)
 							return
 						}
-					case "query":
-						w := wantFor(refs[fileOf[op.H]], op.Q)
+					case "query", "queryctx":
+						rf := refs[fileOf[op.H]]
+						if altAt[[3]int{pi, t, i}] {
+							rf = altRefs[fileOf[op.H]]
+						}
+						w := wantFor(rf, op.Q)
 						if mustFail[[3]int{pi, t, i}] {
 							w = &sqlWant{MustErr: true, Why: "the index file does not exist at this point"}
+						}
+						if op.Kind == "queryctx" {
+							v.Count("fault_query_with_cancellable_context", 1)
+							if o.o != nil && o.o.Panic == "" && o.o.Err != "" {
+								continue // a cancelled query may fail; it must not panic, and if it answers, correctly
+							}
 						}
 						if sig, d := compareSQL(w, o.o); sig != "" {
 							bad = v.Violate(sig, "phase %d task %d: query %q on handle %d (file %d): %s", pi, t, string(op.Q.Text), op.H, fileOf[op.H], d)
